@@ -295,6 +295,41 @@ example : ∃ v b, v.typed ∧ write v = .ok b ∧ b.length + 1 < I32LIM ∧ v.d
   ⟨.cont .anon .array (.cons (.leaf .anon (.str .w1 [7, 8])) .nil), [0x16, 0x10, 0x02, 7, 8, 0x18],
     ⟨trivial, ⟨trivial, trivial⟩, trivial⟩, by decide, by decide, by decide⟩
 
+/-! ### writer entry points OUTSIDE `Value`: a caller-side length (`stri` / `utf8i`, `str_cb` / `utf8_cb`)
+
+"The domain of the round trip = what the writer accepts" is a statement about `TLVWrite::tlv`, the integer /
+bool / null / float methods, `str` / `utf8` and the container methods — the entry points that take a *value*.
+`stri` / `utf8i` take a length **and** a byte iterator, `str_cb` / `utf8_cb` a callback that reports a length:
+the code trusts both.  What holds, and what does not: -/
+
+/-- `stri` / `utf8i` called with the true length (this is what `str` / `utf8` do) write the shortest-form leaf,
+which round-trips; `str_cb` / `utf8_cb` do so for callbacks that write at most 65535 bytes (valid UTF-8 for the
+`utf8` forms — a **caller precondition**, nothing in the code checks it) -/
+theorem length_writers_roundtrip (t : Tag) (data rest : Bytes) (hl : data.length < 2 ^ 64) :
+    writeStri false t data.length data = encode (.leaf t (Prim.mkStr data)) ∧
+    strOf (writeStri false t data.length data ++ rest) = .ok data ∧
+    (validUtf8 data = true → utf8Of (writeStri true t data.length data ++ rest) = .ok data) ∧
+    (data.length ≤ 65535 → writeStrCb false t data = .ok (encode (.leaf t (Prim.mkStr data)))) ∧
+    (data.length ≤ 65535 → writeStrCb true t data = .ok (encode (.leaf t (Prim.mkUtf8 data)))) := by
+  refine ⟨writeStri_str t data, ?_, fun hu => ?_, writeStrCb_str t data, writeStrCb_utf8 t data⟩
+  · rw [writeStri_str]; exact (str_roundtrip t _ data rest (lenWidth_fits _ hl)).1
+  · rw [writeStri_utf8]; exact utf8_roundtrip t _ data rest ⟨lenWidth_fits _ hl, hu⟩
+
+/-- **`str_cb` / `utf8_cb` panic** — a literal `panic!` in `finalize_len_header`, not an error — when the callback
+reports more than 65535 bytes.  A caller precondition; the callers inside rs-matter (Sigma2 / Sigma3 encrypted
+payloads, attestation elements, CSR response) write own certificates, fixed-length nonces and signatures. -/
+theorem cb_writers_panic_above_u16 (u : Bool) (t : Tag) (data : Bytes) (h : 65535 < data.length) :
+    writeStrCb u t data = .panic .explicit :=
+  writeStrCb_panics u t data h
+
+-- the preconditions are real: a wrong `len` or invalid UTF-8 is written without an error and the stream is
+-- corrupt (too short a `len`: the value is cut and the rest is read as further elements; too long: the
+-- element is truncated; `utf8i` with invalid UTF-8: the reader refuses what the writer accepted)
+example : strOf (writeStri false .anon 2 [1, 2, 3]) = .ok [1, 2] ∧
+    strOf (writeStri false .anon 4 [1, 2, 3]) = .err .mismatch ∧
+    utf8Of (writeStri true .anon 1 [0x80]) = .err .invalidData ∧
+    (writeStrCb true .anon [0x80]).isOk = true := by decide
+
 /-- **The truncating writer is a defect, not a modelling choice.**  `Str8l` holding a 300-byte slice is a
 value of the Rust type; the fixed `TLVWrite::tlv` refuses it; the truncating cast (`encode`: the writer before
 the fix, and `TLV::bytes_iter` today) emits the length byte `300 mod 256 = 44`, and those bytes decode — without
@@ -338,12 +373,15 @@ theorem typed_roundtrip (t : Tag) (rest : Bytes) :
 
 /-- the writer methods that choose the width themselves (`u16/u32/u64`, `i16/i32/i64`, `str`,
 `utf8`) always produce a well-formed primitive, so the round trip applies to them: the value comes
-back through `u64()` / `i64()` whatever width was chosen -/
+back through `u64()` / `i64()` whatever width was chosen; an octet string of any length (`str`: third clause)
+and a **valid UTF-8** string (`utf8(&str)`: fourth clause — validity is what the `&str` type guarantees) are
+well-formed with the width the writer picks -/
 theorem shortest_form_roundtrip (t : Tag) (rest : Bytes) :
     (∀ n, n < 2 ^ 64 → u64 (encode (.leaf t (Prim.mkUint n)) ++ rest) = .ok n) ∧
     (∀ i : Int, -(2 ^ 63 : Nat) ≤ i ∧ i < (2 ^ 63 : Nat) → i64 (encode (.leaf t (Prim.mkSint i)) ++ rest) = .ok i) ∧
-    (∀ b : Bytes, b.length < 2 ^ 64 → (Prim.mkStr b).wf) := by
-  refine ⟨fun n h => ?_, fun i h => ?_, fun b h => ?_⟩
+    (∀ b : Bytes, b.length < 2 ^ 64 → (Prim.mkStr b).wf) ∧
+    (∀ b : Bytes, b.length < 2 ^ 64 → validUtf8 b = true → (Prim.mkUtf8 b).wf) := by
+  refine ⟨fun n h => ?_, fun i h => ?_, fun b h => ?_, fun b h hu => ⟨lenWidth_fits b.length h, hu⟩⟩
   · obtain ⟨w, hw⟩ := mkUint_eq n
     have hwf := mkUint_wf n h
     rw [hw] at hwf ⊢
